@@ -142,6 +142,21 @@ pub fn run(tier: &str, seed: u64, s: &mut Sink) {
             let mut rev = nat.clone();
             rev.reverse();
             emit(s, format!("c4reasm {}", m.line(&rev)), "reasm");
+            // sizes the checks do not forbid: the last chunk longer than chunk 0, chunk 0 alone longer (2 chunks),
+            // a single chunk of every small size (capacity / offset arithmetic on payload lengths)
+            if m.chunks.len() >= 2 {
+                for extra in [1usize, 3, 4, 100] {
+                    let mut g = m.clone();
+                    let first_len = g.chunks[0].clen as usize;
+                    let last = g.chunks.last_mut().unwrap();
+                    let n = first_len + extra;
+                    last.body = r.bytes(n);
+                    last.body.resize(n + c03::pad_of(n), 0);
+                    last.clen = n as u16;
+                    emit(s, format!("c4reasm {}", g.line(&nat)), "reasm-last-chunk-longer");
+                    emit(s, format!("c4reasm {}", g.line(&rev)), "reasm-last-chunk-longer");
+                }
+            }
             for k in 0..m.chunks.len().min(6) {
                 for id in [0u16, 1, 2, 32767, 32768, 65534, 65535] {
                     let mut g = m.clone();
